@@ -353,8 +353,8 @@ func init() {
 				for _, f := range c.entryLoad() {
 					fns[f] = true
 				}
-				c.ruleAssert("R-ASSERT", fns)
-				c.R.Floor("R-ASSERT", 2)
+				c.ruleAssert("R-ASSERT", c.withWorkers(fns))
+				c.R.Floor("R-ASSERT", 1)
 			},
 		},
 	})
